@@ -141,7 +141,7 @@ def classify(witnesses):
 # reporting
 
 def write_replay(prop, n, payload):
-    d = os.path.join(OUT, "replay")
+    d = os.environ.get("VERIF_REPLAY_DIR") or os.path.join(OUT, "replay")
     os.makedirs(d, exist_ok=True)
     path = os.path.join(d, "%s-%d.json" % (prop, n))
     with open(path, "w") as fh:
@@ -189,8 +189,9 @@ def finish(prop, tier, seed, level, coverage, assumptions, witnesses, t0, replay
     }
     if notes:
         ev["notes"] = notes
-    os.makedirs(os.path.join(VERIF, "evidence"), exist_ok=True)
-    with open(os.path.join(VERIF, "evidence", prop + ".json"), "w") as fh:
+    evdir = os.environ.get("VERIF_EVIDENCE_DIR") or os.path.join(VERIF, "evidence")   # (scratch runs against a mutated copy)
+    os.makedirs(evdir, exist_ok=True)
+    with open(os.path.join(evdir, prop + ".json"), "w") as fh:
         json.dump(ev, fh, indent=1, sort_keys=True)
     print("%s %s tier=%s seed=%d: %d violation class(es), %d known-finding class(es), %.1fs" % (
         prop, "VIOLATED" if n else "held", tier, seed, n, len(known), time.time() - t0))
